@@ -107,6 +107,52 @@ func (e *expiredIds) take() []string {
 type AddHookFn func(ctx *Context, state State, id string, fact Map, loading bool) error
 type RemHookFn func(ctx *Context, state State, id string) error
 
+// leaving is the State that the rem hook is given for a record that
+// leaves the state other than as the argument of Rem: the record is
+// replaced, deleted with the fact it depends on ('deleteWith'),
+// expired, or the whole state is cleared.
+//
+// A rem hook asks the state for the record it is told about (see
+// cron.AddHooks).  State.Get does not return an expired record (and
+// it purges), so this Get answers with the record that leaves.
+type leaving struct {
+	State
+	id   string
+	fact Map
+}
+
+func (l *leaving) Get(ctx *Context, id string) (Map, error) {
+	if id == l.id {
+		return l.fact, nil
+	}
+	return l.State.Get(ctx, id)
+}
+
+// runRemHook tells the rem hook (if any) that the given record leaves
+// the state.
+//
+// The caller holds the state's write lock; as in Rem, the hook runs
+// with the privilege that lets it use the state nevertheless.
+func runRemHook(ctx *Context, s State, hook RemHookFn, id string, fact Map) error {
+	if hook == nil {
+		return nil
+	}
+	if !ctx.isPrivileged("hook") {
+		ctx.grantPrivilege("hook")
+		defer ctx.revokePrivilege()
+	}
+	return hook(ctx, &leaving{s, id, fact}, id)
+}
+
+// scheduled reports whether the fact is a rule with a schedule, in
+// which case the add hook registers it (see cron.AddHooks) under the
+// fact's id, instead of whatever was registered under that id.
+func scheduled(fact Map) bool {
+	rule, _ := fact["rule"].(map[string]interface{})
+	schedule, _ := rule["schedule"].(string)
+	return schedule != ""
+}
+
 type State interface {
 	Count(ctx *Context) int
 	AddHook(hook AddHookFn)
